@@ -279,8 +279,8 @@ class StoreWorld:
         live = sorted(self.model)
         free = [n for n in self.names if n not in self.model]
         op = rng.choices(["new", "same", "change", "uidchange", "invalid", "cond-current", "cond-stale", "cond-absent", "uidconflict", "delete", "delete-missing",
-                          "delete-cond-current", "delete-cond-stale", "reopen", "revert"],
-                         [10, 3, 6, 3, 3, 3, 3, 1, 4, 5, 1, 2, 2, 1, 2])[0]
+                          "delete-cond-current", "delete-cond-stale", "reopen", "revert", "uidchange-samelen"],
+                         [10, 3, 6, 3, 3, 3, 3, 1, 4, 5, 1, 2, 2, 1, 2, 3])[0]
         holders = self.holders()
         if op == "new" and free and len(live) < 7:
             n = rng.choice(free)
@@ -324,6 +324,22 @@ class StoreWorld:
             uid = rng.choice(cand)
             b, tok = self.body(n, uid)
             self.do_import(op, n, b, uid, tok, expect={"C06": "ok", "C03": "ok"})
+        elif op == "uidchange-samelen" and live:
+            # the UID changes, the byte length and (practically) the modification second do not
+            pairs = {"abc": "ABC", "ABC": "abc", "u1": "u2", "u2": "u3", "u3": "u1"}
+            ics = [n for n in live if n.endswith(".ics") and self.model[n].uid in pairs and self.model[n].served is not None]
+            if not ics:
+                return False
+            n = rng.choice(ics)
+            olduid = self.model[n].uid
+            newuid = pairs[olduid]
+            if newuid in self.holders(exclude=n):
+                return False
+            body = self.model[n].served.replace(b"UID:" + olduid.encode(), b"UID:" + newuid.encode())
+            if body == self.model[n].served or len(body) != len(self.model[n].served):
+                return False
+            self.res.count("store_same_length_uid_changes")
+            self.do_import(op, n, body, newuid, self.model[n].token, expect={"C06": "ok", "C03": "ok"})
         elif op == "invalid":
             n = rng.choice([x for x in self.names if not x.endswith(".txt")])
             if n.endswith(".ics"):
